@@ -4,7 +4,9 @@ import Gaftools.Proofs.RealignLemmas
 # C11 — realign output is exactly-once and in input order under every schedule
 # C13 — realign aborts with an error when a worker dies
 
-Both are statements about every event sequence (schedule) of the transition system `Realign.step`.
+Both are statements about every event sequence (schedule) of the transition system `Realign.step`.  The parent's
+`except queue.Empty` handler is NOT atomic in this model: each of its polls (`one_failed`, `one_is_alive`, `all_exited`) is a
+`pCheck` event of its own and workers may move between two polls.
 -/
 namespace Gaftools.C11
 open Gaftools.Realign
@@ -61,45 +63,64 @@ theorem death_persistent (s : St) (i : Nat) (w : Worker) (hi : s.ws[i]? = some w
     (step s e).ws[i]? = some w :=
   Proofs.Realign.death_persistent s i w hi c hc e
 
-/-- the parent acting alone: reads while the pipe is non-empty, then one timeout and one liveness check -/
-def parentDrain (s : St) : List Ev := List.replicate s.chan.length .pGet ++ [.pTimeout, .pCheck]
+/-- the three polls of the handler (a `pCheck` outside the handler is a stutter) -/
+def polls : List Ev := [.pCheck, .pCheck, .pCheck]
+
+/-- the parent acting alone: reads while the pipe is non-empty, then one timeout and the handler's polls -/
+def parentDrain (s : St) : List Ev := List.replicate s.chan.length .pGet ++ (.pTimeout :: polls)
 
 /-- … and with a death that lost messages the outcome of that drain is `failed` (non-zero exit status) -/
 theorem quiescent_death_fails (batches : List (List Nat)) (es : List Ev)
     (hq : anyRunning (run (init batches) es) = false)
     (hw : ∃ w ∈ (run (init batches) es).ws, (∃ c, w.st = .exited c ∧ c ≠ 0) ∧ undelivered w ≠ []) :
     (run (run (init batches) es) (parentDrain (run (init batches) es))).pc = .failed :=
-  Proofs.Realign.drain_death_fails (Proofs.Realign.inv_reach batches es) hq hw
+  Proofs.Realign.drain_death_fails (Proofs.Realign.inv_reach batches es) (Proofs.Realign.hinv_reach batches es) hq hw
 
-/-- why the drain below starts with a (possibly pending) `pCheck` — without it the statement is false: the worker finishes completely between the parent's `Empty` and
-    its liveness check; then `parentDrain` only performs that check and leaves the parent at `atGet` -/
+/-- why the drain below starts with the (possibly pending) polls of the handler — without them the statement is false: the worker
+    finishes completely while the parent is inside the handler; then `parentDrain` only finishes the handler and leaves the
+    parent at `atGet` -/
 theorem quiescent_terminates_counterexample :
     let s := run (init [[]]) [.pTimeout, .wPut 0, .wFlush 0, .wExit 0]
     anyRunning s = false ∧ (run s (parentDrain s)).pc = .atGet := by decide
 
-/-- variant without the leading `pCheck`, when the parent is not between `Empty` and the liveness check -/
-theorem quiescent_terminates_notAfterEmpty (batches : List (List Nat)) (es : List Ev)
-    (hq : anyRunning (run (init batches) es) = false) (hpc : (run (init batches) es).pc ≠ .afterEmpty) :
+/-- variant without the leading polls, when the parent is not inside the handler -/
+theorem quiescent_terminates_notInHandler (batches : List (List Nat)) (es : List Ev)
+    (hq : anyRunning (run (init batches) es) = false) (hpc : ∀ p, (run (init batches) es).pc ≠ .eval p) :
     let s' := run (run (init batches) es) (parentDrain (run (init batches) es))
     s'.pc = .done ∨ s'.pc = .failed :=
-  Proofs.Realign.drain_terminates (Proofs.Realign.inv_reach batches es) hq hpc
+  Proofs.Realign.drain_terminates (Proofs.Realign.inv_reach batches es) (Proofs.Realign.hinv_reach batches es) hq hpc
 
 /-- C13 "never hangs" / C11 "terminates": from every reachable state in which no worker is running any more, the parent alone
-    (a possibly pending liveness check, reads while the pipe is non-empty, one timeout, one liveness check) reaches `done` or `failed` -/
+    (the pending polls of the handler if it is inside it, reads while the pipe is non-empty, one timeout, the handler's polls)
+    reaches `done` or `failed` -/
 theorem quiescent_terminates (batches : List (List Nat)) (es : List Ev)
     (hq : anyRunning (run (init batches) es) = false) :
-    let s' := run (run (init batches) es) (.pCheck :: parentDrain (run (init batches) es))
+    let s' := run (run (init batches) es) (polls ++ parentDrain (run (init batches) es))
     s'.pc = .done ∨ s'.pc = .failed :=
-  Proofs.Realign.drain_terminates' (Proofs.Realign.inv_reach batches es) hq
+  Proofs.Realign.drain_terminates' (Proofs.Realign.inv_reach batches es) (Proofs.Realign.hinv_reach batches es) hq
 
 /-- C13 "never hangs", independent of the surviving workers (the repair of K3): once some worker has exited with a non-zero
-    status, the parent terminates on its own — a possibly pending check, reads while the pipe is non-empty, one timeout, one check —
+    status, the parent terminates on its own — the pending polls, reads while the pipe is non-empty, one timeout, the polls —
     whatever the other workers do, even if they never move again (e.g. blocked for ever on a lock the dead worker held) -/
 theorem failed_worker_terminates (batches : List (List Nat)) (es : List Ev)
     (hf : anyFailed (run (init batches) es) = true) :
-    let s' := run (run (init batches) es) (.pCheck :: parentDrain (run (init batches) es))
+    let s' := run (run (init batches) es) (polls ++ parentDrain (run (init batches) es))
     s'.pc = .done ∨ s'.pc = .failed :=
-  Proofs.Realign.drain_failed_terminates hf
+  Proofs.Realign.drain_failed_terminates (Proofs.Realign.hinv_reach batches es) hf
+
+/-- the reachable states never leave the protocol: the handler of the code only continues or exits with status 1 -/
+theorem never_stuck (batches : List (List Nat)) (es : List Ev) : (run (init batches) es).pc ≠ .stuck :=
+  Proofs.Realign.never_stuck batches es
+
+/-- what the separate polls buy — and what a reordering would lose.  The handler that polls `all_exited` BEFORE `one_is_alive`
+    (`if not all_exited(ps) and not one_is_alive(ps): exit(1)`), Boolean-equivalent to the code's handler when evaluated
+    atomically, fails spuriously: the worker is still running at the first poll and has exited cleanly at the second -/
+def reorderedHandler : Prog :=
+  .test .failed (.leaf .exit1) (.test .exited (.leaf .cont) (.test .alive (.leaf .cont) (.leaf .exit1)))
+
+theorem reordered_fails_spuriously :
+    let es : List Ev := [.pTimeout, .pCheck, .pCheck, .wPut 0, .wFlush 0, .wExit 0, .pCheck]
+    hasDeath es = false ∧ (runH reorderedHandler (init [[]]) es).pc = .failed ∧ (run (init [[]]) es).pc = .atGet := by decide
 
 /-- every worker makes only finitely many moves: the number of enabled worker events in any schedule is bounded by
     `3 * messages + workers` (put, flush per message, one exit/death per worker) — workers cannot run forever -/
@@ -116,11 +137,14 @@ theorem groups_flatten (b c : Nat) (hb : 0 < b) (hc : 0 < c) (recs : List Nat) :
   Proofs.Realign.groups_flatten b c hb hc recs
 
 /-! non-vacuity: the D17 schedule (item received, timeout, the worker finishes completely, liveness check, …) -/
-def exSched : List Ev := [.wPut 0, .wFlush 0, .pGet, .pTimeout, .wPut 0, .wFlush 0, .wPut 0, .wFlush 0, .wExit 0, .pCheck, .pGet, .pGet]
+def exSched : List Ev := [.wPut 0, .wFlush 0, .pGet, .pTimeout, .pCheck, .wPut 0, .wFlush 0, .wPut 0, .wFlush 0, .wExit 0, .pCheck, .pCheck, .pGet, .pGet]
 example : (run (init [[0, 1]]) exSched).pc = .done ∧ (run (init [[0, 1]]) exSched).got = [0, 1] := by decide
 example : hasDeath exSched = false := by decide
 example : (run (init [[0, 1], [2]]) [.wPut 0, .wFlush 0, .wDie 1 (-9), .wPut 0, .wFlush 0, .wPut 0, .wFlush 0, .wExit 0,
     .pGet, .pGet, .pGet, .pTimeout, .pCheck]).pc = .failed := by decide
+/-- a worker that dies between two polls of one handler run is still noticed: `one_failed` says no, the worker dies, `one_is_alive`
+    says no, `all_exited` says no -/
+example : (run (init [[0]]) [.pTimeout, .pCheck, .wDie 0 (-9), .pCheck, .pCheck]).pc = .failed := by decide
 example : groups 2 2 [0, 1, 2, 3, 4, 5, 6] = [[[0, 1], [2, 3]], [[4, 5], [6]]] := by decide
 
 end Gaftools.C11
